@@ -48,6 +48,10 @@ def gen_case(rng, tier):
     if rng.random() < 0.6 and frames[0]["cols"] and frames[1]["cols"]:
         k = dict(frames[0]["cols"][0])
         k["vals"] = vecgen.gen_vals(rng, k["kind"], frames[1]["n"])
+        if k["kind"] == "date" and rng.random() < 0.6:
+            # the same key as timestamps on the other side (a date column joined with a datetime column)
+            k["kind"] = "datetime"
+            k["vals"] = [None if v is None else v * 86400000000 for v in k["vals"]]
         frames[1]["cols"] = [k] + [c for c in frames[1]["cols"] if c["name"] != k["name"]][:3]
     vectors = []
     for _ in range(2):
